@@ -4,7 +4,7 @@
 cd /verif
 export VERIF_BUDGET_S=${VERIF_BUDGET_S:-3000}
 for T in "$@"; do
-  for i in 01 02 03 04 05 06 07 08 09 10 11 12 13 14 15 16 17 18 19 20; do
+  for i in ${CHECKS:-01 02 03 04 05 06 07 08 09 10 11 12 13 14 15 16 17 18 19 20}; do
     VERIF_REPO_SRC=$T/src ./check C$i quick > /var/tmp/rm-$(basename $T)-C$i.log 2>&1; rc=$?
     echo "$(basename $T) C$i rc=$rc | $(grep -E '^C[0-9]+ quick:|HarnessError|Error' /var/tmp/rm-$(basename $T)-C$i.log | tail -1 | cut -c1-160)"
     [ $rc -ne 0 ] && grep -E "^VIOLATION|^  signature=|^HARNESS|Traceback|Error" /var/tmp/rm-$(basename $T)-C$i.log | head -6 | cut -c1-300
